@@ -84,6 +84,8 @@ fn pass_1_internal(
     let mut cur_address = current_offset;
 
     for (line, item) in &segment.items {
+        #[cfg(avra_rs_verif)]
+        crate::verif_hook::yield_point(8);
         match item {
             Item::Label(name) => {
                 if let Some(_) = common_context.set_label(name.clone(), (segment.t, cur_address)) {
